@@ -6,7 +6,7 @@ from harness.main import Engine
 from harness.props import c16
 
 PID = 'C15'
-LEVEL = 'translation_validation'
+LEVEL = 'proof'
 RULE = ('gin-machine/skip: config texts mixing known / unknown / ambiguous targets, blocks, macro definitions, '
         'references to known and unknown configurables nested in containers, imports of present / missing modules, '
         'parsed with skip_unknown in {omitted, False, True, [], [names], (names), {names}}; independent oracle: a '
